@@ -241,10 +241,30 @@ func c14(r *core.Run) {
 		if src.Bool(1, 3) {
 			s.ContainerEdits.DeviceNodes = append(s.ContainerEdits.DeviceNodes, st.drawNode(90+i, low))
 		}
+		// Spec-level lists of every length 0-7: after decoding, slices of 3, 5, 6 or 7
+		// entries have spare capacity, which is where append() aliasing shows
+		for k, n := 0, src.Intn(8); k < n; k++ {
+			s.ContainerEdits.Env = append(s.ContainerEdits.Env, fmt.Sprintf("SPEC%d_%d=f%d", i, k, i))
+		}
+		for k, n := 0, src.Intn(4); k < n; k++ {
+			s.ContainerEdits.Mounts = append(s.ContainerEdits.Mounts, &specs.Mount{HostPath: fmt.Sprintf("/host/s%d_%d", i, k), ContainerPath: fmt.Sprintf("/ctr/s%d_%d", i, k)})
+		}
+		for k, n := 0, src.Intn(4); k < n; k++ {
+			s.ContainerEdits.Hooks = append(s.ContainerEdits.Hooks, &specs.Hook{HookName: "prestart", Path: fmt.Sprintf("/bin/hook-s%d-%d", i, k)})
+		}
 		nd := 1 + src.Intn(3)
 		for j := 0; j < nd; j++ {
 			d := specs.Device{Name: fmt.Sprintf("dev%d", j)}
 			d.ContainerEdits.Env = []string{fmt.Sprintf("CDI_SIM=f%d.dev%d", i, j)}
+			for k, n := 0, src.Intn(3); k < n; k++ {
+				d.ContainerEdits.Env = append(d.ContainerEdits.Env, fmt.Sprintf("DEV%d_%d_%d=1", i, j, k))
+			}
+			if src.Bool(1, 3) {
+				d.ContainerEdits.Hooks = append(d.ContainerEdits.Hooks, &specs.Hook{HookName: "poststop", Path: fmt.Sprintf("/bin/hook-d%d-%d", i, j)})
+			}
+			if src.Bool(1, 3) {
+				d.ContainerEdits.Mounts = append(d.ContainerEdits.Mounts, &specs.Mount{HostPath: fmt.Sprintf("/host/d%d_%d", i, j), ContainerPath: fmt.Sprintf("/ctr/d%d_%d", i, j)})
+			}
 			nn := src.Intn(3)
 			for k := 0; k < nn; k++ {
 				d.ContainerEdits.DeviceNodes = append(d.ContainerEdits.DeviceNodes, st.drawNode(i*10+j*3+k, low))
